@@ -346,8 +346,8 @@ func (c *Ctx) c11History(nops int) (lines, impl []string) {
 
 type c11View struct {
 	arr, off, ln int
-	capLo       int  // cap(v) ≥ capLo always; == when exact
-	exact       bool
+	capLo        int // cap(v) ≥ capLo always; == when exact
+	exact        bool
 }
 
 type c11Gen struct {
